@@ -42,6 +42,17 @@ MANIFEST = {
 
 MAX_REJECTIONS_PER_CLASS = 3
 
+# Ruled NOT findings (coordinator, round 4) -- the clauses were narrowed instead of the library being changed:
+#  * Font.Write with CONTRADICTORY style inputs (IsRegular together with IsBold or a non-zero ItalicAngle; IsItalic differing
+#    from "angle != 0"): head.macStyle and OS/2.fsSelection then resolve the contradiction differently.  C12 states that each
+#    table's bits survive encode/decode, not how Write resolves contradictory input; the cross-table style clauses are judged
+#    for consistent inputs only, contradictory ones only on table-level round trips and on stability of what Read reports.
+#    (A change of makeHead to take the italic bit from f.IsItalic shows only on contradictory input: not a C12 violation.)
+#  * post.isFixedPitch is computed from float widths with a half-unit tolerance while hmtx stores truncated integers
+#    (603.0/602.6 -> 603/602 under "fixed"; 600/600.4/600.8 -> 600/600/600 under "proportional").  post.isFixedPitch is not a
+#    derived field of C12 and precision loss may change it; it is compared with hmtx only for integer-width fonts, and is part
+#    of the second-cycle law only when the first font had integer widths.  The QUERY Font.IsFixedPitch() stays judged.
+
 CFG = """CONSTANTS
   Gen = %(gen)s
   MaxG = %(maxg)d
